@@ -1443,6 +1443,9 @@ func main() {
 		{pkgs["serializers"], "CDX", "Serialize"},
 		{pkgs["serializers"], "SPDX23", "Serialize"},
 		{pkgs["writer"], "Writer", "WriteStreamWithOptions"},
+		{pkgs["storage"], "FileSystem", "Store"},
+		{pkgs["storage"], "FileSystem", "Retrieve"},
+		{pkgs["storage"], "", "generateDocFileName"},
 		{pkgs["writer"], "", "New"},
 		{pkgs["reader"], "", "New"},
 		{pkgs["writer"], "Options", "clone"},
